@@ -64,9 +64,12 @@ CHECKS["C09"] = (A + "+" + B, MC, "grammar-level structural rules as regular-lan
 CHECKS["C16"] = (A, MC, "SyntaxError stores line-1/column for arbitrary positions with or without offending token; pre-pass keeps lines and columns; listener-raised errors sit on the name token of a declaration; merge conflicts name the file and the line/column of the conflicting declaration (names symbolic, prefixes and same-named relations of other types chosen by the solver); line/column helper lemmas",
                  "ANTLR's own token positions with respect to the cleaned text are outside; parser stub / merge stub contracts validated natively", TECH)
 
-NOT_APPLICABLE = {
-    "C17": "every clause is about gonum multigraph/topo/dot behaviour, which a hand-written SSA encoder cannot reach (reflection-based iterators); stubbing gonum would stub away the property",
-}
+CHECKS["C17"] = (A, MC, "the real plain graph code and gonum's multigraph, topo and DOT encoder executed on every model of the stated families: nodes and typed lines equal a spec graph computed independently from the rewrites, label lookup, reversal (every line flipped, direction flipped, nodes kept, twice = same DOT text), path duality for all label pairs, one DOT text per model across the explored map orders and ULID orders, compile-time cycle iff a pure computed cycle of two or more relations, none for acyclic models",
+                 "gonum's map iterator (unsafe/go:linkname) is replaced by an equivalent plain-Go range loop for the executor and the native replay (harness/dep/gonum_iterator); orders limited to the stated sites; models outside the families are outside", TECH)
+CHECKS["C08"] = (A, MC, "panic monitor of the executor on degenerate protobuf models through the printer and both graph builders, arbitrary yaml nodes through TransformModFile, faulty module files through the merge, error-recovery parse trees through the listener, malformed lines through the line lookups; work bound: instructions executed by both graph builders, the printer and the merge on layered/nested model families whose path count is exponential in their size stay under a stated quadratic budget",
+                 "only the hand-written code: arbitrary bytes through the ANTLR lexer/parser, protojson and yaml.v3 are outside (not encoded); the work bound is decided on the stated families only, the lexer's behaviour on form feeds is outside", TECH + " + instruction budget (zzverif.Budget)")
+
+NOT_APPLICABLE = {}
 
 PENDING = {}  # property -> reason (not yet built); listed under not_applicable until a check exists
 
